@@ -5,6 +5,7 @@ package c13
 
 import (
 	"fmt"
+	"net"
 	"runtime"
 	"strings"
 	"sync"
@@ -185,6 +186,22 @@ func gen(seed uint64, tier string) Scenario {
 			}
 		}
 	}
+	// ... and in most of those runs (when there is another eligible reader) a second one (its node has no loopback address: the client's
+	// interface lookup is answered by the simulation for such addresses, hooks/export_verif.go)
+	if x := core.HS(seed, "c13.mcast2", "", 0); x%100 < 80 {
+		first := -1
+		for i := range sc.Peers {
+			if sc.Peers[i].Transport == "mcast" {
+				first = i
+			}
+		}
+		for i := range sc.Peers {
+			if first >= 0 && i != first && sc.Peers[i].Role == "read" && (sc.Peers[i].Transport == "udp" || sc.Peers[i].Transport == "tcp") && sc.Peers[i].StallAtUS == 0 {
+				sc.Peers[i].Transport = "mcast"
+				break
+			}
+		}
+	}
 	// ServerStream.Close landing inside the handshake of the multicast reader (between its
 	// DESCRIBE, its SETUPs and its PLAY): one round trip is about LatMin+LatMax
 	for _, p := range sc.Peers {
@@ -322,7 +339,7 @@ func run(t *testing.T, sc Scenario) *core.Result {
 	}
 	var summary map[string]any
 	res := sys.Run(t, opts, func(w *sys.World) {
-		w.ProbeInit("server_close_mid_run", "stream_close_mid_run", "client_close_concurrent", "client_close_mid_handshake", "close_inside_packet_callback", "close_inside_request_callback", "server_side_stalled", "back_channel_offered", "back_channel_writer", "multicast_reader",
+		w.ProbeInit("server_close_mid_run", "stream_close_mid_run", "client_close_concurrent", "client_close_mid_handshake", "close_inside_packet_callback", "close_inside_request_callback", "server_side_stalled", "back_channel_offered", "back_channel_writer", "multicast_reader", "second_multicast_reader", "reader_rtcp_to_group", "reader_rtcp_callback",
 			"client_close_while_playing", "client_close_while_recording", "close_with_stalled_peer", "peer_vanished",
 			"server_close_with_sessions", "census_attributed_goroutines", "publisher", "secure", "session_closed_by_timeout_or_peer")
 		owners := core.NewOwners(classify)
@@ -409,11 +426,22 @@ func run(t *testing.T, sc Scenario) *core.Result {
 				spin()
 			}
 		}
-		h.OnRTCP = func(ss *gortsplib.ServerSession, _ *description.Media, _ rtcp.Packet) {
+		h.OnRTCP = func(ss *gortsplib.ServerSession, _ *description.Media, pkt rtcp.Packet) {
+			if rr, ok := pkt.(*rtcp.ReceiverReport); ok && rr.SSRC == 0x0C130C13 {
+				w.Probe("reader_rtcp_callback")
+			}
 			g := w.Log.NextG()
 			pmu.Lock()
 			pktCBs = append(pktCBs, pcb{ss, g})
 			pmu.Unlock()
+		}
+
+		// reading sessions have an RTCP callback as well
+		h.PlayStatus = func(ss *gortsplib.ServerSession) base.StatusCode {
+			if ss.State() == gortsplib.ServerSessionStatePrePlay {
+				ss.OnPacketRTCPAny(func(m *description.Media, pkt rtcp.Packet) { h.OnRTCP(ss, m, pkt) })
+			}
+			return 0
 		}
 
 		budget := func(holdBefore time.Duration) time.Duration {
@@ -534,14 +562,23 @@ func run(t *testing.T, sc Scenario) *core.Result {
 
 		// ---- peers ------------------------------------------------------------------
 		var names []string
+		var mcastNames, mcastIPs []string
 		for i, p := range sc.Peers {
 			name := fmt.Sprintf("peer%d", i)
 			names = append(names, name)
 			ip := fmt.Sprintf("10.0.0.%d", 20+i)
 			if p.Transport == "mcast" {
 				// the client looks its control connection's local address up among the machine's
-				// real interfaces (net.Interfaces) before it joins a group: 127.0.0.1 always exists
-				ip = "127.0.0.1"
+				// real interfaces (net.Interfaces) before it joins a group: 127.0.0.1 always exists.
+				// A second multicast reader keeps its simulated address (answered by the stand-in of
+				// the interface lookup): the server tells multicast readers apart by their addresses.
+				if len(mcastNames) == 0 {
+					ip = "127.0.0.1"
+				} else {
+					w.Probe("second_multicast_reader")
+				}
+				mcastNames = append(mcastNames, name)
+				mcastIPs = append(mcastIPs, ip)
 				w.Probe("multicast_reader")
 			}
 			node := w.Net.Node(name, ip)
@@ -859,12 +896,56 @@ func run(t *testing.T, sc Scenario) *core.Result {
 			})
 		}
 
+		// Receiver reports of the multicast readers, as the network may deliver them: sent to the group
+		// from each reader's address and RTCP port for the whole run - while the reader plays, after it
+		// has paused or left, late. (The readers' own reports go to the server's unicast address, where
+		// the stand-in of pkg/multicast does not listen.) While the reader's session is alive they reach
+		// its RTCP callback; once its close notification is out nothing may.
+		ghostStop := make(chan struct{})
+		if len(mcastNames) > 0 {
+			ghostNode := w.Net.Node("ghost", "10.0.0.99")
+			w.Go("ghost", func() {
+				sock, err := ghostNode.ListenPacket("udp", ":7777")
+				if err != nil {
+					return
+				}
+				defer sock.Close()
+				gs := sock.(*simnet.UDPSock)
+				type ft struct{ from, to *net.UDPAddr }
+				var list []ft
+				seen := map[string]bool{}
+				rr, _ := (&rtcp.ReceiverReport{SSRC: 0x0C130C13}).Marshal()
+				for {
+					select {
+					case <-ghostStop:
+						return
+					default:
+					}
+					time.Sleep(2*us(sc.IntUS) + 7*time.Microsecond)
+					for i, nm := range mcastNames {
+						for _, s := range w.Net.UDPSockets(nm) {
+							a := s.LocalAddr().(*net.UDPAddr)
+							if a.IP.IsMulticast() && a.Port == 8003 && !seen[nm+a.String()] {
+								seen[nm+a.String()] = true
+								list = append(list, ft{&net.UDPAddr{IP: net.ParseIP(mcastIPs[i]), Port: 8003}, a})
+							}
+						}
+					}
+					for _, x := range list {
+						gs.WriteFromTo(rr, x.from, x.to) //nolint:errcheck
+						w.Probe("reader_rtcp_to_group")
+					}
+				}
+			})
+		}
+
 		w.Go("closer", func() {
 			var all []string
 			for _, n := range names {
 				all = append(all, n, n+".final")
 			}
 			w.WaitDrivers(append(all, "writer")...)
+			close(ghostStop)
 			smu.Lock()
 			sc2 := streamClosed
 			streamClosed = true
@@ -1088,7 +1169,7 @@ func init() {
 	f := core.Register("C13", gen, run, shrink)
 	f.Real = []string{"gortsplib.Server, ServerStream, ServerSession, ServerConn, Client (root package, all pkg/* and internal/* it uses)", "pion rtp/rtcp/srtp/sdp", "gorilla/websocket", "crypto/tls", "net/http request/response parsing"}
 	f.Simulated = []string{"TCP and UDP sockets, listeners (simnet)", "clock, timers, deadlines (testing/synctest fake clock)", "entropy", "goroutine interleaving at the shutdown-path yield sites (seeded holds up to 200 ms)", "UDP-multicast group sockets (simnet: join, delivery to every member incl. loop-back)", "in 30% of the runs: simulation-aware locks (verifhook.Mutex / RWMutex, waiters block on channels) and a yield point before every statement of server_udp_listener.go / client_udp_listener.go", "the application: Close calls issued from inside packet callbacks and request callbacks"}
-	f.Excluded = []string{"pkg/multicast's raw-socket platform files (stand-in through the ListenPacket seam in the scratch copy; serverMulticastWriter* and the listeners above it are real; at most one multicast reader per run)", "back-pressure under TLS / WebSocket", "Server.Close called synchronously from inside a handler callback (it waits for the goroutine that runs the callback: API misuse)"}
+	f.Excluded = []string{"pkg/multicast's raw-socket platform files (stand-in through the ListenPacket seam in the scratch copy; serverMulticastWriter* and the listeners above it are real)", "net.Interfaces for addresses other than loopback (the second multicast reader's interface lookup is answered by hooks/export_verif.go", "back-pressure under TLS / WebSocket", "Server.Close called synchronously from inside a handler callback (it waits for the goroutine that runs the callback: API misuse)"}
 	f.Rule = "scenario = 1..4 peers (reader or publisher; udp/tcp/http/ws; plain or TLS+SRTP) each progressing to a seeded protocol step (started, described/announced, set up, playing/recording, paused, resumed) x Client.Close from another goroutine at a seeded instant (or silent disappearance of the peer's node) x Server.Close / ServerStream.Close at seeded instants while a writer keeps writing x peers that stop reading (bounded window + stall) x seeded yield holds on the shutdown paths; non-trivial = at least one Close (or vanish) landed mid-run and a fault or yield fired; distinct = distinct hash of the canonical event log"
 	f.Assumptions = []string{
 		"bounded time for Close = ReadTimeout + WriteTimeout (ReadTimeout + 2 x WriteTimeout in scenarios with a peer that stops reading or vanishes: a write that is already blocked and the response / TEARDOWN written next run into their deadlines one after the other) + the simulator's own injected-delay budget (yield holds assigned during the call, 8 x max latency, 2 s)",
